@@ -140,7 +140,7 @@ def case_oracle(case):
                  for k, i in spec["outputs"]}
         try:
             v0, m0 = evaluate(g, env)
-        except (RefOutOfBounds, RefUnsupported) as e:
+        except Exception as e:  # noqa: BLE001 (a broken graph is a finding)
             return Failure("original-uninterpretable", str(e), "refeval"), info
         es = einsums_of(g)
         info["n_einsum"] = len(es)
@@ -165,7 +165,7 @@ def case_oracle(case):
         if g1 is not None:
             try:
                 v1, m1 = evaluate(g1, env)
-            except (RefOutOfBounds, RefUnsupported) as e:
+            except Exception as e:  # noqa: BLE001 (a broken graph is a finding)
                 return Failure("distributed-uninterpretable", str(e),
                                "refeval"), info
             msg = close(v0, v1, exact, max(m0, m1))
@@ -181,7 +181,7 @@ def case_oracle(case):
                            exc_site(e)), info
         try:
             v2, m2 = evaluate(g2, env)
-        except (RefOutOfBounds, RefUnsupported) as e:
+        except Exception as e:  # noqa: BLE001 (a broken graph is a finding)
             return Failure("nobroadcast-uninterpretable", str(e),
                            "refeval"), info
         msg = close(v0, v2, exact, max(m0, m2))
